@@ -378,7 +378,10 @@ def zoo(ctx, rnd=0, scale="small"):
     add(("prod", ("diag", a * b), ("kron", d(a), d(b))), "mm", "inv")
     # inv / solve of a Product that contains a ScalarMul (c * A, D @ D @ cI): scheduled since /repo 9078f51 repaired the device
     # of inv(ScalarMul) (before, these calls raised "There is a device mismatch in Product" on the NumPy backend)
-    add(("smul", 2.5, ("kron", d(a, "psd"), d(b, "psd"))), "mm", "inv")
+    # flagged "psd": the product c * K inherits PSD from K, so an explicit Cholesky() is an admitted call form for it too, and the
+    # structural Product rule has to be taken although the ScalarMul factor itself carries no annotation (seeded change c19_m4)
+    add(("smul", 2.5, ("kron", d(a, "psd"), d(b, "psd"))), "mm", "inv", "psd")
+    add(("smul", 3.0, ("bdiag", [d(a, "psd"), d(b, "psd")], [r(sz["bd"][2]), r(sz["bd"][3])])), "mm", "inv", "psd")
     k3 = (r(sz["k3"]), r(sz["k3"]), r(sz["k3"]))
     add(("prod", ("kron", d(k3[0]), d(k3[1]), d(k3[2])), ("kron", d(k3[0]), d(k3[1]), d(k3[2]))), "mm", "inv")
     add(("prod", ("bdiag", [d(m1), d(m2_)], [q1, q2]), ("diag", m1 * q1 + m2_ * q2)), "mm", "inv")
